@@ -299,8 +299,17 @@ func runC28(c *Ctx) {
 			if okAcq {
 				okAcq = len(g.notOnlyVia(expired, 1, nodeSet(cas))) == 0
 			}
+			// re-entry on an equal LockID only while the entry has NOT expired: an expired entry must be
+			// re-acquired through the CAS (fresh TTL), otherwise the caller is told it owns a key whose
+			// table entry anyone may take over
+			if okAcq {
+				cut2 := func(from *GNode, e Edge) bool {
+					return edgeCut(loadedC, 2)(from, e) || edgeCut(cas, 1)(from, e) || edgeCut(expired, 2)(from, e)
+				}
+				okAcq = len(g.ReachableWithout(cut2, own)) == 0
+			}
 		}
-		c.Check(okAcq, r3, "in-memory Lock: ownership only via loadOrStore miss, CAS on an expired entry, or equal LockID", f.Decl.Pos(), "three justified ownership paths", "IsLockOwner can be set on a path that did not atomically acquire the key", nil)
+		c.Check(okAcq, r3, "in-memory Lock: ownership only via loadOrStore miss, CAS on an expired entry, or equal LockID on an unexpired entry", f.Decl.Pos(), "three justified ownership paths", "IsLockOwner can be set on a path that did not atomically acquire the key", nil)
 		// failure returns false
 		fi := w.Fn("cache.L2InMemoryCache.IsLocked")
 		gi := w.G(fi)
